@@ -4,7 +4,7 @@
    with cut-off at depth D of the type's shape; [expect] renders a node by transcoding its padded
    index key into the target (C04 says what that transcoding is). *)
 From Coq Require Import List NArith ZArith Lia.
-From MC Require Import Str Packed Tree Tree_proofs NoPanic Transcode_proofs Odometer Iter_proofs Meta_proofs.
+From MC Require Import Str Packed Tree Tree_proofs NoPanic Transcode_proofs Odometer Iter_proofs Meta_proofs Enum_proofs.
 Import ListNotations.
 
 (* for every well-formed schema, every depth limit D and every target that does not run out of
@@ -31,6 +31,26 @@ Proof. exact enum_chain. Qed.
 Theorem C03_unit_target_total : forall t, tg_total t TgUnit.
 Proof. exact tg_total_unit. Qed.
 
+(* the converse: the enumeration holds exactly the index paths that end at a leaf or at the depth
+   limit ([maximal]), each of them once *)
+Theorem C03_enum_exact : forall D sh q, In q (enum D sh) <-> maximal D sh q.
+Proof. exact enum_iff. Qed.
+
+Theorem C03_enum_nodup : forall D sh, NoDup (enum D sh).
+Proof. exact enum_nodup. Qed.
+
+(* every key (index sequence) that the type-level lookup resolves to a leaf, consuming all of it, is
+   among the nodes the iterator yields when the depth limit admits it *)
+Theorem C03_resolved_leaf_yielded : forall t idx D, NoPanic.wf t -> small t ->
+  fst (trav nofail t (idx_keys idx) []) = ROk (length idx) -> length idx <= D ->
+  In idx (enum D (shape_of t)).
+Proof. exact resolved_leaf_yielded. Qed.
+
+(* and everything yielded resolves: to a leaf, or to a node at the depth limit *)
+Theorem C03_enumerated_resolve : forall D sh q, In q (enum D sh) ->
+  exists c, descend sh q = Some c /\ (is_leaf c = true \/ length q = D).
+Proof. exact enumerated_resolve. Qed.
+
 (* non-vacuity: the struct of tests/iter.rs: b: [Leaf; 2], c: {inner}, d: [{inner}; 1], a *)
 Definition inner := NHet HStruct (Named [[105%N]]) [(no_attrs, NLeaf KLeaf)].
 Definition ex_t : node := NHet HStruct (Named [[98%N]; [99%N]; [100%N]; [97%N]])
@@ -48,3 +68,7 @@ Print Assumptions C03_iter_complete.
 Print Assumptions C03_iter_count.
 Print Assumptions C03_enum_is_dfs_chain.
 Print Assumptions C03_unit_target_total.
+Print Assumptions C03_enum_exact.
+Print Assumptions C03_enum_nodup.
+Print Assumptions C03_resolved_leaf_yielded.
+Print Assumptions C03_enumerated_resolve.
